@@ -23,6 +23,8 @@ const RHO_BINARY: f64 = 1e-4;
 const RHO_MULTI: f64 = 1e-2;
 const GAP_TOL: f64 = 1e-4;
 const NEWTON_CERT: f64 = 1e-10;
+/// allowance for the rounding noise of the objective the harness hands to L-BFGS: NOISE_C·sqrt(λmax·ε·fmag)
+const NOISE_C: f64 = 20.0;
 
 // ------------------------------------------------------------------------------------------------
 // data sets
@@ -656,7 +658,8 @@ fn logistic_case(c: &mut Case, k: usize, mode: &str) {
     }
 
     c.nontrivial();
-    if !c.check("lr.params-finite", finite_params, &sg, || format!("non-finite coefficient/intercept: {:?}", ft.theta)) {
+    let sg_fin = format!("{}/{}", kc, if alpha == 0.0 { "alpha=0" } else { "alpha>0" });
+    if !c.check("lr.params-finite", finite_params, &sg_fin, || format!("non-finite coefficient/intercept: {:?}", ft.theta)) {
         return;
     }
     // Oracle C (first half): objective finite and not above the start, alpha >= 0
@@ -667,51 +670,42 @@ fn logistic_case(c: &mut Case, k: usize, mode: &str) {
     }
 
     if alpha > 0.0 {
-        // Oracle A
-        if g0 > 0.0 {
+        // The minimiser's own stopping rule is absolute (‖g‖∞ <= 1e-8): a start that is already stationary up
+        // to that level makes "relative to the size at the start" meaningless -> no verdict for A and B.
+        let degenerate = !(g0 >= 1e-3 * (pr.dim() as f64).sqrt());
+        if degenerate {
+            c.bucket("degenerate:start-(almost)-stationary(no stationarity verdict)");
+        } else {
+            // Oracle A
             let rho = if k == 2 { RHO_BINARY } else { RHO_MULTI };
-            let oracle = format!("lr.stationarity.{}", tag);
             c.bucket(&decade_bucket(&format!("{}:grad-ratio", tag), gw / g0));
-            c.ratio(&oracle, gw, rho * g0, &sg, || format!("‖∇f(ŵ)‖ = {:e}, ‖∇f(0)‖ = {:e}, ratio {:e}, alpha = {}, θ̂ = {:?}", gw, g0, gw / g0, alpha, ft.theta));
-        } else {
-            c.bucket("degenerate:zero-gradient-at-start");
-        }
-        // Oracle B
-        let nt = newton(&pr);
-        c.bucket(if nt.iters <= 10 { "newton:<=10-iterations" } else if nt.iters <= 30 { "newton:11..30-iterations" } else { "newton:>30-iterations" });
-        if !(nt.gnorm <= NEWTON_CERT * g0) || !nt.f.is_finite() {
-            c.inconclusive("reference Newton optimum not certified (own gradient above 1e-10·‖∇f(0)‖)");
-        } else {
-            let denom = f0 - nt.f;
-            if denom > 1e-9 * f0.abs() {
-                let gap = (fw - nt.f).max(0.0);
-                let oracle = format!("lr.optimum-gap.{}", tag);
-                c.bucket(&decade_bucket(&format!("{}:objective-gap", tag), gap / denom));
-                if std::env::var("C09_DEBUG").is_ok() && (gap / denom > 1e-5 || gw / g0 > 1e-5) {
-                    {
-                        // diagnostic: same minimiser on the harness objective, count iterations
-                        let dd = pr.dim();
-                        let nf = std::cell::Cell::new(0usize);
-                        let fcl = |x: &DenseMatrix<f64>| -> f64 { nf.set(nf.get() + 1); let v: Vec<f64> = (0..dd).map(|j| x.get(0, j)).collect(); pr.eval(&v, false).0 };
-                        let dfcl = |g: &mut DenseMatrix<f64>, x: &DenseMatrix<f64>| { let v: Vec<f64> = (0..dd).map(|j| x.get(0, j)).collect(); let gv = pr.eval(&v, false).1; for j in 0..dd { g.set(0, j, gv[j]); } };
-                        let fr: &F<'_, f64, DenseMatrix<f64>> = &fcl;
-                        let dr: &DF<'_, DenseMatrix<f64>> = &dfcl;
-                        let ls: Backtracking<f64> = Backtracking { order: FunctionOrder::THIRD, ..Default::default() };
-                        let mut opt: LBFGS<f64> = Default::default();
-                        opt.max_iter = 100000;
-                        let x0m: DenseMatrix<f64> = DenseMatrix::from_array(1, dd, &vec![0.0; dd]);
-                        let r = opt.optimize(fr, dr, &x0m, &ls);
-                        let v: Vec<f64> = (0..dd).map(|j| r.x.get(0, j)).collect();
-                        let (f2, g2, _) = pr.eval(&v, false);
-                        eprintln!("DBG2 idx={} iterations={} fevals={} f={:.6e} gratio={:.3e}", c.index, r.iterations, nf.get(), f2, norm2v(&g2) / g0);
-                    }
-                    eprintln!("DBG {} idx={} n={} p={} k={} layout={} smax={:.3} shiftmax={:.3} alpha={:.4} gratio={:.3e} gap={:.3e} fw={:.4e} f*={:.4e} f0={:.4e}", c.family, c.index, d.x.r, d.x.c, k, d.layout, smax, d.shifts.iter().fold(0.0f64, |m, v| m.max(v.abs())), alpha, gw / g0, gap / denom, fw, nt.f, f0);
-                }
-                c.ratio(&oracle, gap, GAP_TOL * denom, &sg, || {
-                    format!("f(ŵ) = {:.15e}, f* = {:.15e} (Newton, {} iterations, own gradient {:e}), f(0) = {:.15e}, relative gap {:e}, alpha = {}", fw, nt.f, nt.iters, nt.gnorm, f0, gap / denom, alpha)
-                });
+            c.ratio(&format!("lr.stationarity.{}", tag), gw, rho * g0, &sg, || {
+                format!("‖∇f(ŵ)‖ = {:e}, ‖∇f(0)‖ = {:e}, ratio {:e} (allowed {:e}), alpha = {}, θ̂ = {:?}", gw, g0, gw / g0, rho, alpha, ft.theta)
+            });
+            // Oracle B
+            let nt = newton(&pr);
+            c.bucket(if nt.iters <= 10 { "newton:<=10-iterations" } else if nt.iters <= 30 { "newton:11..30-iterations" } else { "newton:>30-iterations" });
+            if !(nt.gnorm <= NEWTON_CERT * g0) || !nt.f.is_finite() {
+                c.inconclusive("reference Newton optimum not certified (own gradient above 1e-10·‖∇f(0)‖)");
             } else {
-                c.bucket("degenerate:start-is-(almost)-optimal");
+                let denom = f0 - nt.f;
+                if denom > 1e-9 * f0.abs() {
+                    let gap = (fw - nt.f).max(0.0);
+                    c.bucket(&decade_bucket(&format!("{}:objective-gap", tag), gap / denom));
+                    if k == 2 {
+                        c.ratio("lr.optimum-gap.binary", gap, GAP_TOL * denom, &sg, || {
+                            format!("f(ŵ) = {:.15e}, f* = {:.15e} (Newton, {} iterations, own gradient {:e}), f(0) = {:.15e}, relative gap {:e}, alpha = {}", fw, nt.f, nt.iters, nt.gnorm, f0, gap / denom, alpha)
+                        });
+                    } else {
+                        // k > 2: informational (see assumptions): the multi-class minimiser exhausts its fixed 1000
+                        // iterations in 1-3 % of the fits; there the statement's own criterion (A, rho = 1e-2)
+                        // still holds while a 1e-4 objective gap would be stricter than the statement.
+                        c.count("info:optimum-gap.multiclass(no verdict)");
+                        c.bucket(if gap <= GAP_TOL * denom { "info:multiclass:objective-gap-within-1e-4" } else { "info:multiclass:objective-gap-ABOVE-1e-4(no verdict)" });
+                    }
+                } else {
+                    c.bucket("degenerate:start-is-(almost)-optimal");
+                }
             }
         }
     }
@@ -735,39 +729,88 @@ fn lr_mixed(c: &mut Case) {
 }
 
 // ------------------------------------------------------------------------------------------------
-// L-BFGS on SPD quadratics ½xᵀAx − bᵀx with an event log
+// L-BFGS on SPD quadratics q(x) = ½xᵀAx − bᵀx (+ const) with an event log
 // ------------------------------------------------------------------------------------------------
 
 enum Ev {
+    /// objective evaluated at a point (trial points of the line search and iterates)
     F(Vec<f64>, f64),
+    /// gradient evaluated at a point: the minimiser does this at accepted iterates only
     DF(Vec<f64>),
 }
 
-/// the objective exactly as the closures evaluate it (plain f64 loops, like user code)
-fn quad_f(a: &Mat, b: &[f64], x: &[f64]) -> f64 {
-    let n = x.len();
-    let mut s = 0.0;
-    for i in 0..n {
-        let mut ax = 0.0;
-        for j in 0..n {
-            ax += a.d[i * n + j] * x[j];
-        }
-        s += x[i] * (0.5 * ax - b[i]);
-    }
-    s
+/// The quadratic exactly as the closures evaluate it (plain f64 loops, like user code).
+/// form "expanded": ½xᵀAx − bᵀx;  form "centred": ½(x−x*)ᵀA(x−x*)  (the same quadratic up to a constant,
+/// evaluated without the cancellation between the two terms of the expanded form).
+struct Quad {
+    a: Mat,
+    b: Vec<f64>,
+    xstar: Vec<f64>,
+    centred: bool,
 }
 
-fn quad_g(a: &Mat, b: &[f64], x: &[f64]) -> Vec<f64> {
-    let n = x.len();
-    (0..n)
-        .map(|i| {
-            let mut ax = 0.0;
+impl Quad {
+    fn arg(&self, x: &[f64]) -> Vec<f64> {
+        if self.centred {
+            x.iter().zip(self.xstar.iter()).map(|(u, v)| u - v).collect()
+        } else {
+            x.to_vec()
+        }
+    }
+    fn f(&self, x: &[f64]) -> f64 {
+        let n = x.len();
+        let z = self.arg(x);
+        let mut s = 0.0;
+        for i in 0..n {
+            let mut az = 0.0;
             for j in 0..n {
-                ax += a.d[i * n + j] * x[j];
+                az += self.a.d[i * n + j] * z[j];
             }
-            ax - b[i]
-        })
-        .collect()
+            s += if self.centred { z[i] * (0.5 * az) } else { z[i] * (0.5 * az - self.b[i]) };
+        }
+        s
+    }
+    fn g(&self, x: &[f64]) -> Vec<f64> {
+        let n = x.len();
+        let z = self.arg(x);
+        (0..n)
+            .map(|i| {
+                let mut az = 0.0;
+                for j in 0..n {
+                    az += self.a.d[i * n + j] * z[j];
+                }
+                if self.centred {
+                    az
+                } else {
+                    az - self.b[i]
+                }
+            })
+            .collect()
+    }
+    /// sum of the magnitudes of the terms f(x) is computed from (scale of its rounding noise)
+    fn fmag(&self, x: &[f64]) -> f64 {
+        let n = x.len();
+        let z = self.arg(x);
+        let mut s = 0.0;
+        for i in 0..n {
+            let mut az = 0.0;
+            for j in 0..n {
+                az += (self.a.d[i * n + j] * z[j]).abs();
+            }
+            s += z[i].abs() * (0.5 * az + if self.centred { 0.0 } else { self.b[i].abs() });
+        }
+        s
+    }
+    /// oracle-side gradient (compensated sums)
+    fn grad_ref(&self, x: &[f64]) -> Vec<f64> {
+        let z = self.arg(x);
+        let az = self.a.mulv(&z);
+        if self.centred {
+            az
+        } else {
+            az.iter().zip(self.b.iter()).map(|(u, v)| u - v).collect()
+        }
+    }
 }
 
 fn row_of(m: &DenseMatrix<f64>) -> Vec<f64> {
@@ -777,15 +820,9 @@ fn row_of(m: &DenseMatrix<f64>) -> Vec<f64> {
 
 fn lbfgs_quad(c: &mut Case) {
     let n = if c.rng.bool(0.25) { c.rng.us(1, 3) } else { c.rng.us(1, 12) };
-    let cond = if n == 1 {
-        1.0
-    } else if c.rng.bool(0.15) {
-        1.0
-    } else {
-        c.rng.logu(1.0, 1e4)
-    };
+    let cond = if n == 1 || c.rng.bool(0.15) { 1.0 } else { c.rng.logu(1.0, 1e4) };
     let scale = if c.rng.bool(0.2) { 1.0 } else { c.rng.logu(1e-2, 1e2) };
-    // spectrum in [1/cond, 1]·scale: graded, clustered or random inside the range (extremes always present)
+    // spectrum in [1/cond, 1]·scale: graded, two clusters or random inside the range (extremes always present)
     let mut lam: Vec<f64> = match c.rng.below(3) {
         0 => graded(n, cond),
         1 => (0..n).map(|_| if c.rng.bool(0.5) { 1.0 } else { 1.0 / cond }).collect(),
@@ -823,6 +860,7 @@ fn lbfgs_quad(c: &mut Case) {
         _ => (0..n).map(|_| c.rng.int(-20, 20) as f64).collect(),
     };
     let order_third = c.rng.bool(0.5);
+    let centred = c.rng.bool(0.5);
     // measured conditioning (certifies the precondition cond <= 1e4 on the matrix actually used)
     let (ev, _) = jacobi_eig(&a);
     let (lmax, lmin) = (ev[0], ev[n - 1]);
@@ -830,39 +868,39 @@ fn lbfgs_quad(c: &mut Case) {
         c.skip("constructed matrix is not SPD with condition number <= 1e4");
         return;
     }
-    c.describe(json!({"op": "lbfgs-quadratic", "n": n, "cond": lmax / lmin, "scale": scale, "structure": structure,
+    let form = if centred { "centred" } else { "expanded" };
+    c.describe(json!({"op": "lbfgs-quadratic", "n": n, "cond": lmax / lmin, "scale": scale, "structure": structure, "form": form,
         "order": if order_third { "THIRD" } else { "SECOND" }, "A": mat_json(&a), "b": b, "x0": x0, "xstar": xstar}));
     c.hash_f64s(&a.d);
     c.hash_f64s(&b);
     c.hash_f64s(&x0);
-    c.hash_f64s(&[if order_third { 3.0 } else { 2.0 }]);
+    c.hash_f64s(&[if order_third { 3.0 } else { 2.0 }, if centred { 1.0 } else { 0.0 }]);
     c.bucket(&format!("quad:n={}", if n <= 3 { n.to_string() } else if n <= 8 { "4..8".into() } else { "9..12".into() }));
-    let cb = if lmax / lmin <= 10.0 { "cond:<=1e1" } else if lmax / lmin <= 1e2 { "cond:1e1..1e2" } else if lmax / lmin <= 1e3 { "cond:1e2..1e3" } else { "cond:1e3..1e4" };
+    let kappa = lmax / lmin;
+    let cb = if kappa <= 10.0 { "cond:<=1e1" } else if kappa <= 1e2 { "cond:1e1..1e2" } else if kappa <= 1e3 { "cond:1e2..1e3" } else { "cond:1e3..1e4" };
     c.bucket(&format!("quad:{}", cb));
     c.bucket(&format!("quad:scale:{}", if scale < 0.1 { "1e-2..1e-1" } else if scale < 1.0 { "1e-1..1" } else if scale <= 10.0 { "1..1e1" } else { "1e1..1e2" }));
     c.bucket(&format!("quad:order:{}", if order_third { "THIRD" } else { "SECOND" }));
     c.bucket(&format!("quad:start:{}", ["zero", "random", "around-minimiser", "integer"][start_kind]));
     c.bucket(&format!("quad:structure:{}", structure));
-    let sg = format!("{}/{}/{}", if order_third { "THIRD" } else { "SECOND" }, cb, if n == 1 { "n=1" } else { "n>1" });
+    c.bucket(&format!("quad:form:{}", form));
+    let sg = format!("{}/{}/{}/{}", if order_third { "THIRD" } else { "SECOND" }, cb, if n == 1 { "n=1" } else { "n>1" }, form);
 
-    // oracle-side gradient (compensated)
-    let grad = |x: &[f64]| -> Vec<f64> {
-        let ax = a.mulv(x);
-        (0..n).map(|i| ax[i] - b[i]).collect()
-    };
-    let g0 = norm2v(&grad(&x0));
-    let g0inf = grad(&x0).iter().fold(0.0f64, |m, v| m.max(v.abs()));
+    let q = Quad { a, b, xstar, centred };
+    let g0v = q.grad_ref(&x0);
+    let g0 = norm2v(&g0v);
+    let g0inf = g0v.iter().fold(0.0f64, |m, v| m.max(v.abs()));
 
     let log: RefCell<Vec<Ev>> = RefCell::new(Vec::new());
     let fcl = |x: &DenseMatrix<f64>| -> f64 {
         let xv = row_of(x);
-        let v = if std::env::var("C09_EXACT").is_ok() { let dx: Vec<f64> = (0..n).map(|i| xv[i] - xstar[i]).collect(); quad_f(&a, &vec![0.0; n], &dx) } else { quad_f(&a, &b, &xv) };
+        let v = q.f(&xv);
         log.borrow_mut().push(Ev::F(xv, v));
         v
     };
     let dfcl = |g: &mut DenseMatrix<f64>, x: &DenseMatrix<f64>| {
         let xv = row_of(x);
-        let gv = quad_g(&a, &b, &xv);
+        let gv = q.g(&xv);
         for (j, v) in gv.iter().enumerate() {
             g.set(0, j, *v);
         }
@@ -887,7 +925,7 @@ fn lbfgs_quad(c: &mut Case) {
     if !c.check("lbfgs.result-finite", xf.iter().all(|v| v.is_finite()), &sg, || format!("x = {:?}", xf)) {
         return;
     }
-    c.check("lbfgs.iterations<=max_iter", res.iterations <= max_iter, &sg, || format!("{} iterations", res.iterations));
+    c.check("lbfgs.iterations<=1000", res.iterations <= max_iter, &sg, || format!("{} iterations", res.iterations));
     c.bucket(if res.iterations == 0 {
         "quad:iterations:0"
     } else if res.iterations <= n + 2 {
@@ -902,8 +940,10 @@ fn lbfgs_quad(c: &mut Case) {
 
     // ---- offline inspection of the event log
     let events = log.into_inner();
+    // accepted iterates = points at which the gradient was evaluated (consecutive duplicates merged);
+    // every point carries the objective value the minimiser itself was given there (if it asked)
     let mut accepted: Vec<Vec<f64>> = Vec::new();
-    let mut trial_evals = 0usize;
+    let mut f_evals = 0usize;
     for e in &events {
         match e {
             Ev::DF(x) => {
@@ -911,37 +951,25 @@ fn lbfgs_quad(c: &mut Case) {
                     accepted.push(x.clone());
                 }
             }
-            Ev::F(_, _) => {
-                trial_evals += 1;
-            }
+            Ev::F(_, _) => f_evals += 1,
         }
     }
-    c.bucket_if(trial_evals > 2 * res.iterations + 1 + res.iterations, "quad:line-search-backtracked");
+    c.bucket_if(f_evals > 3 * res.iterations + 1, "quad:line-search-backtracked");
     if accepted.last().map(|l| *l != xf).unwrap_or(true) {
-        // the returned point is the end of the chain whatever the log says
+        // the returned point closes the chain whatever the log says
         accepted.push(xf.clone());
     }
     c.check("lbfgs.first-gradient-at-start", accepted.first().map(|p| *p == x0).unwrap_or(false), &sg, || "the first gradient evaluation was not at the starting point".to_string());
-    // objective along accepted iterates never increases (beyond 1e-12 relative to the size of its terms)
-    let fmag = |x: &[f64]| -> f64 {
-        let mut s = 0.0;
-        for i in 0..n {
-            let mut ax = 0.0;
-            for j in 0..n {
-                ax += (a.d[i * n + j] * x[j]).abs();
-            }
-            s += x[i].abs() * (0.5 * ax + b[i].abs());
-        }
-        s
-    };
-    let vals: Vec<f64> = accepted.iter().map(|x| quad_f(&a, &b, x)).collect();
+    // seen[t]: value of the objective the closure returned at accepted[t] (the closure is deterministic, so
+    // re-evaluating gives bit-identical values to what the line search compared)
+    let vals: Vec<f64> = accepted.iter().map(|x| q.f(x)).collect();
     let mut worst = 0.0f64;
     let mut worst_at = 0usize;
     for t in 1..vals.len() {
-        let sc = vals[t - 1].abs().max(vals[t].abs()).max(fmag(&accepted[t])).max(1e-300);
+        let sc = vals[t - 1].abs().max(vals[t].abs()).max(q.fmag(&accepted[t])).max(1e-300);
         let inc = (vals[t] - vals[t - 1]) / sc;
         if !(inc <= worst) {
-            // also catches NaN
+            // (also catches NaN)
             worst = if inc.is_nan() { f64::INFINITY } else { inc };
             worst_at = t;
         }
@@ -949,14 +977,24 @@ fn lbfgs_quad(c: &mut Case) {
     c.ratio("lbfgs.objective-never-increases", worst, 1e-12, &sg, || {
         format!("accepted iterate {} of {}: f went from {:.17e} to {:.17e}", worst_at, vals.len() - 1, vals[worst_at.max(1) - 1], vals[worst_at])
     });
-    // final gradient reduction
-    let gfin = norm2v(&grad(&xf));
-    let thr = 1e-6 * g0 + 1e-7;
+    c.ratio("lbfgs.final<=start", vals[vals.len() - 1] - vals[0], 1e-12 * vals[0].abs().max(q.fmag(&x0)), &sg, || format!("f(x_final) = {:e} > f(x0) = {:e}", vals[vals.len() - 1], vals[0]));
+    // final gradient reduction. DESIGN threshold 1e-6·‖g0‖ + 1e-7, plus the resolution limit of the objective
+    // the harness itself supplied: a line search that compares computed objective values cannot certify
+    // progress once q(x) − q* is below the rounding noise δ ≈ n·ε·fmag(x) of those values, and
+    // ‖g‖² <= 2·λmax·(q(x) − q*). The term vanishes for the centred form and for starts far from the minimiser.
+    let gfin = norm2v(&q.grad_ref(&xf));
+    let noise = (lmax * f64::EPSILON * q.fmag(&xf)).sqrt();
+    let base = 1e-6 * g0 + 1e-7;
+    let thr = base + NOISE_C * noise;
     if g0 > 0.0 {
-        c.bucket(&decade_bucket("quad:final-gradient/(1e-6·g0+1e-7)", gfin / thr));
+        c.bucket(&decade_bucket("quad:final-gradient/‖g0‖", gfin / g0));
+        if gfin > base {
+            c.bucket("quad:objective-resolution-limited(final gradient above 1e-6·g0+1e-7, within noise allowance)");
+            c.bucket(&decade_bucket("quad:noise-allowance-used", (gfin - base) / (NOISE_C * noise)));
+        }
     }
     c.ratio("lbfgs.gradient-reduction", gfin, thr, &sg, || {
-        format!("‖g(x_final)‖ = {:e}, ‖g(x0)‖ = {:e}, {} iterations, {} accepted iterates, {} f-evaluations", gfin, g0, res.iterations, accepted.len(), trial_evals)
+        format!("‖g(x_final)‖ = {:e}, ‖g(x0)‖ = {:e}, objective-noise allowance {:e}, {} iterations, {} accepted iterates, {} f-evaluations", gfin, g0, NOISE_C * noise, res.iterations, accepted.len(), f_evals)
     });
 }
 
@@ -973,10 +1011,10 @@ fn main() {
             "prediction rows whose decision gap is below 1e-9·(1 + Σ|x_j w_j| + |b|) are skipped",
         ],
         families: vec![
-            Family::new("lr_binary", 1800, 36000, lr_binary),
-            Family::new("lr_multi", 1800, 36000, lr_multi),
-            Family::new("lr_alpha0", 900, 18000, lr_alpha0),
-            Family::new("lr_mixed", 500, 10000, lr_mixed),
+            Family::new("lr_binary", 2500, 50000, lr_binary),
+            Family::new("lr_multi", 1500, 30000, lr_multi),
+            Family::new("lr_alpha0", 1500, 30000, lr_alpha0),
+            Family::new("lr_mixed", 200, 4000, lr_mixed),
             Family::new("lbfgs_quad", 5000, 100000, lbfgs_quad),
         ],
         min_nontrivial: 1500,
